@@ -1238,7 +1238,9 @@ def deriv_smooth_vel(m: Model, d: Data, out: wp.array2d[float]):
       ],
       outputs=[out],
     )
-  if m.has_fluid:
+  # mj_passive skips every passive force, fluid forces included, when springs and dampers are both disabled
+  passive_disabled = (m.opt.disableflags & DisableBit.SPRING) and (m.opt.disableflags & DisableBit.DAMPER)
+  if m.has_fluid and not passive_disabled:
     if m.body_fluid_ellipsoid_adr.size > 0:
       wp.launch(
         _qderiv_ellipsoid_fluid,
